@@ -143,6 +143,17 @@ func (fr *Frame) ufCallHook(fv FuncV, args []Val, st *State, pos token.Pos) {
 
 func (fr *Frame) staticCall(callee *ssa.Function, free []Val, args []Val, st *State, pos token.Pos) []Val {
 	c := fr.c
+	if fr.fc != nil && fr.top {
+		for _, cl := range fr.fc.Clauses {
+			if cl.Kind == "callsite" && cl.Callee == callee.Name() {
+				env := &Env{c: c, fr: fr, st: st, old: fr.old, names: fr.env0, oldNames: fr.env0, bound: map[string]Val{}}
+				for i, a := range args {
+					env.bound[fmt.Sprintf("arg%d", i)] = a
+				}
+				c.oblige(st, "callsite", cl.Label, cl.Props, c.evalBool(env, cl.Expr), pos, "at the call of "+callee.Name()+": "+cl.Src)
+			}
+		}
+	}
 	pkgPath := ""
 	if p := callee.Package(); p != nil {
 		pkgPath = p.Pkg.Path()
@@ -253,6 +264,15 @@ func (fr *Frame) callByContract(fc *FuncContract, sig *types.Signature, srcNames
 	}
 	if fc.Trusted != "" {
 		c.note("assumed contract for " + what + ": " + fc.Trusted)
+	}
+	// array arguments must not be nil unless the callee declares them nullable
+	for i, n := range names {
+		if i >= len(args) || strings.HasPrefix(what, "ND.") {
+			continue
+		}
+		if iv, ok := args[i].(IfaceV); ok && i < sig.Params().Len() && isNDIface(sig.Params().At(i).Type()) && !contains(fc.Nullable, n) {
+			c.oblige(st, "nil", "", nil, app(SBool, ">", iv.Ref, intLit(0)), pos, fmt.Sprintf("argument %s of %s is not nil", n, what))
+		}
 	}
 	for _, cl := range fc.Clauses {
 		if cl.Kind != "requires" {
@@ -552,6 +572,7 @@ func (fr *Frame) ndInvoke(recv IfaceV, rt types.Type, m *types.Func, args []Val,
 		panic(vcErr("no interface contract for ND method %s", name))
 	}
 	recv.Typ = rt
+	c.oblige(st, "nil", "", nil, app(SBool, ">", recv.Ref, intLit(0)), pos, "receiver of "+name+" is not nil")
 	all := append([]Val{recv}, args...)
 	sig := m.Type().(*types.Signature)
 	names := []string{"x"}
